@@ -17,19 +17,19 @@ theorem setP_other (pl : Pid → PState) {p q : Pid} (x : PState) (h : q ≠ p) 
 
 @[simp] theorem deliver_phase (pl : Pid → PState) (c : Cid) (q : Pid) :
     (deliver pl c q).phase = (pl q).phase := by
-  unfold deliver; split <;> rfl
+  unfold deliver deliver1; split <;> rfl
 
 @[simp] theorem deliver_snap (pl : Pid → PState) (c : Cid) (q : Pid) :
     (deliver pl c q).snap = (pl q).snap := by
-  unfold deliver; split <;> rfl
+  unfold deliver deliver1; split <;> rfl
 
 theorem deliver_got_active (pl : Pid → PState) (c : Cid) (q : Pid) (h : (pl q).phase = .active) :
     (deliver pl c q).got = c :: (pl q).got := by
-  unfold deliver; simp [h]
+  unfold deliver deliver1; simp [h]
 
 theorem deliver_got_inactive (pl : Pid → PState) (c : Cid) (q : Pid) (h : (pl q).phase ≠ .active) :
     (deliver pl c q).got = (pl q).got := by
-  unfold deliver; simp [h]
+  unfold deliver deliver1; simp [h]
 
 /-! ### the invariant -/
 
